@@ -144,11 +144,19 @@ func (n *Node) enc() []byte {
 	if n.Nest > 0 {
 		c := *n
 		c.Nest = 0
-		b := c.enc()
+		inner := c.enc()
+		// headers from the inside out, then one concatenation (linear in the output size)
+		heads := make([][]byte, n.Nest)
+		total := len(inner)
 		for i := 0; i < n.Nest; i++ {
-			b = append(rlpHead(0xc0, len(b)), b...)
+			heads[i] = rlpHead(0xc0, total)
+			total += len(heads[i])
 		}
-		return b
+		b := make([]byte, 0, total)
+		for i := n.Nest - 1; i >= 0; i-- {
+			b = append(b, heads[i]...)
+		}
+		return append(b, inner...)
 	}
 	if n.isList() {
 		var body []byte
